@@ -4,7 +4,8 @@ CHECK = {
     "gen": [{"pkg": "extract_c04", "out": "lean/ClusterVerif/Gen/C04.lean"}],
     "lean_sources": ["ClusterVerif/Model/C04Source.lean", "ClusterVerif/Gen/C04.lean", "ClusterVerif/Model/Pin.lean", "ClusterVerif/Model/C04.lean", "ClusterVerif/Spec/C04.lean",
                      "ClusterVerif/Model/C03.lean", "ClusterVerif/Spec/C03.lean", "ClusterVerif/Lemmas/C04.lean",
-                     "ClusterVerif/Model/C04Faults.lean", "ClusterVerif/Spec/C04Conc.lean", "ClusterVerif/Lemmas/C04Faults.lean"],
+                     "ClusterVerif/Model/C04Faults.lean", "ClusterVerif/Spec/C04Conc.lean", "ClusterVerif/Lemmas/C04Faults.lean",
+                     "ClusterVerif/Model/C04Rpc.lean", "ClusterVerif/Lemmas/C04Rpc.lean"],
     "rule": "histories of 4-25 Pin/PinPath/PinUpdate/Unpin/UnpinPath/rpc-pin calls over 12 CIDs (6 data, a sharded group), options drawn or derived "
             "from the stored pin with one field changed/added/removed, 5 default-factor settings, follower on/off, preloaded pinsets; every call is one case "
             "with its explicit pre-state; a trailing !k makes the k-th consensus call of the API call fail; paths to meta / cluster-DAG / shard pins and unresolved paths; "
